@@ -615,7 +615,7 @@ func init() {
 		Confs: func(tier string) []Conf {
 			return []Conf{{Name: "grid", Grid: 2 * c16GridOffsets}, {Name: "random", Weight: 1}}
 		},
-		Strategies: []string{"uniform", "pct", "starve", "starve"},
+		Strategies: []string{"uniform", "pct", "starve", "starve", "lag"},
 		Components: h3Components,
 		Rule: "grid: the runtime end's connection cut after every byte offset 0..329 of the handshake transcript in either direction, followed by stop, wait, a restart on a fresh healthy connection and two marker requests; " +
 			"random: 1-3 sessions from {healthy, unreachable, refusing registration, never answering registration, dropping after the registration reply, cut at a random offset} with random stop / double stop / connection loss / wait / request sequences by the caller, then a final healthy session that must work; the stub's close notification is a scheduler-controlled event; non-trivial = some session was not healthy or there was more than one; distinct = distinct event-log hash",
